@@ -19,6 +19,40 @@ CHECKS = {
         note="Sample values are one generic signal per configuration; compute_full is the reference "
              "(its own definition is C02/C03); merging validated by poisoning and an unmerged cross-check.",
         design="3/C01"),
+    "C02": dict(
+        level="exploration", engine="L-lattice",
+        technique="bounded-exhaustive lattice enumeration of configurations x lengths on the real "
+                  "compute_full against a definitional full-DFT reference model",
+        text="The full Cartesian lattice (7 tiny banks incl. complex ones that wrap below 0 Hz and past "
+             "Nyquist x L 2..12 x S x padded/unpadded (every DFT size 2..12,16, all residues mod 4) x 3 "
+             "frame styles x 2 windows x log/power/energy x 6 lengths around the frame boundaries) is "
+             "enumerated completely and each point compared with an independent reference (full complex "
+             "DFT, explicit reflection map, responses rebuilt by the docstring recipe).",
+        note="numpy.fft trusted; get_truncated_response taken as given (C06); one generic signal per "
+             "length plus zeros.",
+        design="3/C02"),
+    "C03": dict(
+        level="exploration", engine="L-lattice",
+        technique="bounded-exhaustive lattice enumeration on the real compute_full against an "
+                  "np.convolve reference model",
+        text="Every in-domain point of banks x shifts 1..6 x styles x padded/unpadded x windows x "
+             "log/power/energy x float dtypes x lengths {0..3S, M-1, M, M+S, D-1, D, D+1, 2D+3} is "
+             "computed by the real overlap-save implementation and by direct convolution.",
+        note="np.convolve trusted; impulse responses sampled in the documented DFT width; the reference "
+             "asserts its DFT size equals the computer's (harness error otherwise).",
+        design="3/C03"),
+    "C04": dict(
+        level="model_checking", engine="E-explicit-state",
+        technique="explicit-state BFS to fixpoint over call histories on one real instance, "
+                  "differential oracle against a fresh instance (bit-identical)",
+        text="All histories over {compute_chunk(k), finalize, compute_full(N), compute_full(float32), "
+             "frame_by_frame_calculation(N, chunk_size)} are explored to closure (utterances bounded by "
+             "Nmax), so the verdict covers histories of unbounded length over the alphabet; each "
+             "observation must be bit-identical to a fresh instance fed only the current utterance; "
+             "refusals mid-utterance must raise ValueError and leave the canonical state unchanged.",
+        note="Finite alphabet of chunk/utterance lengths; merging by canonical state with NaN-poisoned "
+             "dead regions (as C01).",
+        design="3/C04"),
 }
 
 NOT_YET = "check not built yet in this session (see DESIGN.md section 3 for the planned design)"
